@@ -926,7 +926,9 @@ impl Element {
     // internal function to set the character data - separated out since it doesn't need to be generic
     fn set_character_data_internal(&self, mut chardata: CharacterData) -> Result<(), AutosarDataError> {
         let elemtype = self.elemtype();
-        if elemtype.content_mode() == ContentMode::Characters || elemtype.content_mode() == ContentMode::Mixed {
+        // in mixed content the character data can only be set if this does not discard any sub elements
+        let mixed_ok = elemtype.content_mode() == ContentMode::Mixed && self.sub_elements().next().is_none();
+        if elemtype.content_mode() == ContentMode::Characters || mixed_ok {
             if let Some(cdata_spec) = elemtype.chardata_spec() {
                 let model = self.model()?;
                 let version = self.min_version()?;
